@@ -56,6 +56,8 @@ struct Stress {
     rounds: usize,
     /// sensitivity self-test only: rewrite the generated script (plants a non-atomic operation)
     rewrite: Option<fn(&str) -> String>,
+    /// per thread: iterations of an empty loop before its first operation
+    delays: Vec<usize>,
 }
 
 /// planted mutant 1: `push` as length-read + separate write (`n = size(c); c.resize(n + 1, x)`):
@@ -89,7 +91,18 @@ fn plant_split_fill(script: &str) -> String {
 
 
 fn stress_request(s: &Stress, dedupe: bool, max_out: usize) -> String {
-    let scripts: Vec<String> = s.progs.iter().map(|p| match s.rewrite { Some(f) => f(&script_of(p)), None => script_of(p) }).collect();
+    let scripts: Vec<String> = s
+        .progs
+        .iter()
+        .enumerate()
+        .map(|(t, p)| {
+            let src = script_of_delayed(p, s.delays.get(t).copied().unwrap_or(0));
+            match s.rewrite {
+                Some(f) => f(&src),
+                None => src,
+            }
+        })
+        .collect();
     let spec = json!({"kind": s.init.kind(), "init": s.init.json(), "scripts": scripts, "rounds": s.rounds,
                       "dedupe": dedupe, "max_out": max_out});
     format!("stress {}", kvh::hex(spec.to_string().as_bytes()))
@@ -102,54 +115,79 @@ fn raw_stress_request(kind: &str, init: Value, scripts: &[String], rounds: usize
 
 // ---- small histories: every operation of the model, exact check -------------------------------
 
+fn small_list_op(rng: &mut Rng, tag: i64) -> Op {
+    match rng.weighted(&[6, 4, 3, 2, 1, 1, 2, 2, 1, 2, 2, 3, 2, 2, 2, 2, 2, 1, 1, 1, 1, 1, 1, 1, 2]) {
+        0 => Op::Push(tag),
+        1 => Op::Pop,
+        2 => Op::Size,
+        3 => Op::Get(rng.below(4)),
+        4 => Op::First,
+        5 => Op::Last,
+        6 => Op::Contains(rng.range(0, 3)),
+        7 => Op::Set(rng.below(3), tag),
+        8 => Op::Clear,
+        9 => Op::Fill(tag),
+        10 => Op::Reverse,
+        11 => Op::Snap,
+        12 => Op::Sort,
+        13 => Op::Resize(rng.below(5), tag),
+        14 => if rng.chance(1, 2) { Op::Extend(vec![tag, tag + 50]) } else { Op::ExtendVia(*rng.pick(&["tuple", "iter"]), vec![tag]) },
+        15 => Op::Insert(rng.below(4), tag),
+        16 => Op::Remove(rng.below(3)),
+        17 => Op::Retain(rng.range(0, 2)),
+        18 => Op::IsEmpty,
+        19 => if rng.chance(1, 2) { Op::EqTo(vec![0, 1]) } else { Op::NeTo(vec![0]) },
+        20 => Op::SwapWith(vec![tag, 7]),
+        21 => Op::AddAll(1000),
+        22 => Op::GetIdx(rng.below(4)),
+        23 => Op::SnapVia(*rng.pick(&["copy", "deep_copy", "display", "debug", "concat", "slice"])),
+        _ => Op::Snap,
+    }
+}
+
+/// shape filter: map `==` is generated only when F-C19-10 is not an open finding
+static MAP_EQ_EXCLUDED: std::sync::atomic::AtomicBool = std::sync::atomic::AtomicBool::new(false);
+
+fn small_map_op(rng: &mut Rng, v: i64) -> Op {
+    let k = rng.range(0, 4);
+    match rng.weighted(&[5, 4, 3, 2, 3, 1, 3, 2, 2, 2, 1, 1, 1, 2, 1, 2]) {
+        0 => Op::Ins(k, v),
+        1 => Op::Rem(k),
+        2 => Op::MGet(k),
+        3 => Op::Has(k),
+        4 => Op::MSize,
+        5 => Op::MClear,
+        6 => Op::GetI(rng.below(4)),
+        7 => Op::Ins1(k),
+        8 => Op::Put(k, v),
+        9 => Op::MAccess(k),
+        10 => Op::MIdx(rng.below(4)),
+        11 => Op::MSort,
+        12 => Op::MExtend(vec![(k, v), (rng.range(0, 4), v + 1)]),
+        13 => Op::MSnapVia(*rng.pick(&["copy", "deep_copy", "display", "debug"])),
+        14 => Op::MIsEmpty,
+        _ => if MAP_EQ_EXCLUDED.load(std::sync::atomic::Ordering::Relaxed) { Op::MSize } else { Op::MEqTo(vec![(0, 0), (1, 10)]) },
+    }
+}
+
 fn gen_small(rng: &mut Rng, map: bool, n_threads: usize, max_ops: usize, rounds: usize) -> Stress {
     let mut progs = vec![];
     if map {
         let init: Vec<(i64, i64)> = (0..rng.below(4) as i64).map(|k| (k, k * 10)).collect();
         for t in 0..n_threads {
             let n = 1 + rng.below(max_ops);
-            let mut p = vec![];
-            for j in 0..n {
-                let k = rng.range(0, 4);
-                let v = (t as i64 + 1) * 100 + j as i64;
-                p.push(match rng.weighted(&[5, 4, 3, 2, 3, 1, 3]) {
-                    0 => Op::Ins(k, v),
-                    1 => Op::Rem(k),
-                    2 => Op::MGet(k),
-                    3 => Op::Has(k),
-                    4 => Op::MSize,
-                    5 => Op::MClear,
-                    _ => Op::GetI(rng.below(4)),
-                });
-            }
+            let p = (0..n).map(|j| small_map_op(rng, (t as i64 + 1) * 100 + j as i64)).collect();
             progs.push(p);
         }
-        Stress { kind: "small-map", init: St::M(init), progs, rounds, rewrite: None }
+        Stress { kind: "small-map", init: St::M(init), progs, rounds, rewrite: None, delays: vec![] }
     } else {
         let init: Vec<i64> = (0..rng.below(4) as i64).collect();
         for t in 0..n_threads {
             let n = 1 + rng.below(max_ops);
-            let mut p = vec![];
-            for j in 0..n {
-                let tag = (t as i64 + 1) * 100 + j as i64;
-                p.push(match rng.weighted(&[6, 4, 3, 2, 1, 1, 2, 2, 1, 2, 2, 3]) {
-                    0 => Op::Push(tag),
-                    1 => Op::Pop,
-                    2 => Op::Size,
-                    3 => Op::Get(rng.below(4)),
-                    4 => Op::First,
-                    5 => Op::Last,
-                    6 => Op::Contains(rng.range(0, 3)),
-                    7 => Op::Set(rng.below(3), tag),
-                    8 => Op::Clear,
-                    9 => Op::Fill(tag),
-                    10 => Op::Reverse,
-                    _ => Op::Snap,
-                });
-            }
+            let p = (0..n).map(|j| small_list_op(rng, (t as i64 + 1) * 100 + j as i64)).collect();
             progs.push(p);
         }
-        Stress { kind: "small-list", init: St::L(init), progs, rounds, rewrite: None }
+        Stress { kind: "small-list", init: St::L(init), progs, rounds, rewrite: None, delays: vec![] }
     }
 }
 
@@ -179,7 +217,7 @@ fn gen_big_list(rng: &mut Rng, n_threads: usize, k: usize) -> Stress {
         }
         progs.push(p);
     }
-    Stress { kind: "big-list", init: St::L(vec![]), progs, rounds: 1, rewrite: None }
+    Stress { kind: "big-list", init: St::L(vec![]), progs, rounds: 1, rewrite: None, delays: vec![] }
 }
 
 fn check_big_list(s: &Stress, threads: &[Vec<String>], fin: &str) -> Result<Value, String> {
@@ -305,7 +343,7 @@ fn gen_big_map(rng: &mut Rng, n_threads: usize, k: usize) -> Stress {
         }
         progs.push(p);
     }
-    Stress { kind: "big-map", init: St::M(vec![]), progs, rounds: 1, rewrite: None }
+    Stress { kind: "big-map", init: St::M(vec![]), progs, rounds: 1, rewrite: None, delays: vec![] }
 }
 
 fn check_big_map(s: &Stress, threads: &[Vec<String>], fin: &str) -> Result<Value, String> {
@@ -444,7 +482,7 @@ fn gen_torn_fill(rng: &mut Rng, n_threads: usize, k: usize) -> Stress {
         }
         progs.push(p);
     }
-    Stress { kind: "torn-fill", init: St::L(vec![0; 24]), progs, rounds: 1, rewrite: None }
+    Stress { kind: "torn-fill", init: St::L(vec![0; 24]), progs, rounds: 1, rewrite: None, delays: vec![] }
 }
 
 fn check_torn_fill(s: &Stress, threads: &[Vec<String>], fin: &str) -> Result<Value, String> {
@@ -512,7 +550,7 @@ fn gen_reverse(rng: &mut Rng, n_threads: usize, k: usize) -> Stress {
         }
         progs.push(p);
     }
-    Stress { kind: "reverse-parity", init: St::L((1..=24).collect()), progs, rounds: 1, rewrite: None }
+    Stress { kind: "reverse-parity", init: St::L((1..=24).collect()), progs, rounds: 1, rewrite: None, delays: vec![] }
 }
 
 fn check_reverse(s: &Stress, threads: &[Vec<String>], fin: &str) -> Result<Value, String> {
@@ -566,7 +604,7 @@ fn gen_slots(rng: &mut Rng, n_threads: usize, k: usize) -> Stress {
         }
         progs.push(p);
     }
-    Stress { kind: "own-slot", init: St::L(vec![0; n_threads]), progs, rounds: 1, rewrite: None }
+    Stress { kind: "own-slot", init: St::L(vec![0; n_threads]), progs, rounds: 1, rewrite: None, delays: vec![] }
 }
 
 fn check_slots(s: &Stress, threads: &[Vec<String>], fin: &str) -> Result<Value, String> {
@@ -673,4 +711,42 @@ fn toctou_cases(loops: usize) -> Vec<Toctou> {
             ],
         },
     ]
+}
+
+// ---- replay of the nested-read deadlocks (F-C19-7..9) and of the map `==` history (F-C19-10) -----
+
+struct DeadlockCase {
+    id: &'static str,
+    kind: &'static str,
+    init: Value,
+    scripts: Vec<String>,
+}
+
+fn deadlock_cases(loops: usize) -> Vec<DeadlockCase> {
+    let reader = |expr: &str| format!("export run = |c|\n  for i in 0..{}\n    x = {}\n  ['u']\n", loops, expr);
+    let lmut = format!("export run = |c|\n  for i in 0..{}\n    c.push(i)\n    c.pop()\n  ['u']\n", loops);
+    let mmut = format!("export run = |c|\n  for i in 0..{}\n    c.insert('k9', i)\n    c.remove('k9')\n  ['u']\n", loops);
+    let l50: Vec<i64> = (0..50).collect();
+    vec![
+        DeadlockCase { id: "F-C19-7", kind: "l", init: json!(l50), scripts: vec![reader("c == c"), lmut.clone(), lmut.clone()] },
+        DeadlockCase { id: "F-C19-8", kind: "l", init: json!(l50), scripts: vec![reader("c + c"), lmut.clone(), lmut] },
+        DeadlockCase { id: "F-C19-9", kind: "m", init: json!([[1, 10], [2, 20]]), scripts: vec![reader("c == c"), mmut.clone(), mmut] },
+    ]
+}
+
+fn map_eq_history(rounds: usize) -> Stress {
+    let lit = vec![(1, 10), (0, 0)];
+    Stress {
+        kind: "witness-map-eq",
+        init: St::M(lit.clone()),
+        progs: vec![
+            vec![Op::MEqTo(lit.clone()), Op::MEqTo(lit)],
+            vec![Op::Ins(0, 601000), Op::Ins(0, 601001), Op::MClear],
+            vec![Op::Rem(1), Op::MClear],
+            vec![Op::Put(4, 603000), Op::Ins1(1)],
+        ],
+        rounds,
+        rewrite: None,
+        delays: vec![],
+    }
 }
